@@ -68,7 +68,8 @@ def call_args(detail):
 
 def run_one(path, func, line, pin, cond_timeout, path_timeout, extra_env=None):
     env = dict(os.environ)
-    env["PYTHONPATH"] = VERIF + os.pathsep + "/repo" + os.pathsep + env.get("PYTHONPATH", "")
+    repo = os.environ.get("VERIF_REPO", "/repo")
+    env["PYTHONPATH"] = repo + "/src" + os.pathsep + repo + os.pathsep + VERIF + os.pathsep + env.get("PYTHONPATH", "")
     env["VERIF_PIN"] = pin
     env["PYTHONHASHSEED"] = "0"
     env.update(extra_env or {})
